@@ -7,8 +7,9 @@
                 [owner m k]       the session of that record (None = absent or not ephemeral)
                 [alive m z]       SessionKey(z) is stored
                 [shadow_key z k]  ShadowKey(z, k) = SessionKey(z) ++ "/" ++ url.PathEscape(k)
-                [c14_request]     puts / deletes / delete-ranges on user keys (plain, conditional, session, indexed;
-                                  session puts on non-empty keys) and the session manager's puts / deletes of session keys
+                [c14_request]     puts / deletes / delete-ranges on user keys (plain, conditional, session, indexed and
+                                  sequence puts; session puts on non-empty keys) and the session manager's puts /
+                                  deletes of session keys
                 [c14_run cfg ops] the DB reached from the empty DB by such requests, ATOMIC session closes
                                   (list + write with nothing in between), term updates (leader changes),
                                   notification switches and restarts. *)
